@@ -41,8 +41,17 @@ ASSUMPTIONS = [
     "bits are lost when it is wrapped into the box in float32)",
     "EITHER (exception or exact model value): all-False selection, negative radius, empty query batch; "
     "REFUSE (documented): cell_size <= 0, AtomArrayStack input",
-    "cell radius is limited to <= 20 (radius 5 / cell size 0.5 ...): the implementation allocates (2c+1)^3 slots per "
-    "query, radii >> cell size are a resource question and not explored",
+    "cell radius is limited to <= 20 in the main families (biotite allocates (2c+1)^3 * max_cell_length slots per "
+    "query); the 'cap' family probes cell radii 645 ... 1625, where that product leaves the int range, in forked "
+    "children with a capped address space: class EITHER (clean exception or the exact answer), a dead process is a violation",
+    "audit families: 'cap' 63..1025 atoms in one cell; 'reuse' one cell list answering its program three times in "
+    "different orders with refused calls in between, earlier results must keep their values; 'alias' arguments are not "
+    "modified and results are private, a later change of the caller's coordinate array is class unspecified where the "
+    "unchanged tree keeps a reference (float32 ndarray / AtomArray, counted as unspecified_shared_coordinates); "
+    "'flavour' float32/float64/Fortran/strided/transposed/read-only/integer/list coordinates, queries, radii, "
+    "selections and boxes (lists for query/selection/box and 0-d radius arrays are class EITHER); 'orient' reversed / "
+    "rolled atom order, permuted box rows, cube rotations of atoms + box + queries; 'edge' one selected atom, 10^6-cell "
+    "grids, atoms at the 8- and 16-bit cell index borders, documented constructor refusals",
 ]
 EXHAUSTIVE = True
 SHARD_TIMEOUT = {"quick": 600, "thorough": 2400}
@@ -153,6 +162,10 @@ def bounds(tier):
         "boxes": BOXES, "offset_palette": OFFSETS,
         "selections": "every mask with <= 2 cleared bits + strided view + all-False",
         "radius_assignments": "all 3^k assignments from 3 radii to k <= 3 queries, 4 radius triples x 10 query triples",
+        "audit_families": {"cap_atoms_per_cell": CAP_N, "cap_overflow_cell_radii": [645, 813, 1625],
+                           "coordinate_flavours": COORD_FLAVOURS, "query_flavours": FLAV_Q,
+                           "radius_flavours": FLAV_R_SCALAR + FLAV_R_ARRAY,
+                           "orient": "atom order rev/roll; 6 box row orders; %s cube rotations" % (3 if tier == "quick" else 24)},
     }
     if tier == "quick":
         b["multisets"] = "k<=2 over 125 lattice points (8000), k=3 over 27-point sublattice (3654)"
